@@ -1317,7 +1317,7 @@ def run(ctx):
     # coverage-guided campaigns over raw index bytes with the "file" oracle inside the target (E3)
     from .. import fuzz
 
-    fuzz.run_campaigns(ctx, "vf.fuzzt.c11", [("index_file", ctx.scale(15000, 1500000), ctx.scale(8, 16))])
+    fuzz.run_campaigns(ctx, "vf.fuzzt.c11", [("index_file", ctx.scale(15000, 1000000), ctx.scale(8, 16))])
 
 
 def replay(ctx, check, case):
